@@ -121,6 +121,15 @@ RecvRet(c) ==
   /\ consumed' = consumed + c /\ incb' = 0
   /\ UNCHANGED <<tcp, run, thr, sent, pend, written, pgot, pwrote, rtot, presented, pshut, eof, closeRep, wfail, peof, clean>>
 
+(* bind() mode: what is read goes to the bound ByteStream instead of the callback.  The receiver is handed exactly the   *)
+(* read-but-unconsumed bytes - including what the callback had left unconsumed before bind() - so "consumed by the      *)
+(* callback" followed by "forwarded" is the peer's stream: no hole and no duplicate at the switch-over.                 *)
+Forward(len, runs) ==
+  /\ run # "None" /\ incb = 0 /\ closeRep = 0
+  /\ len = rtot - consumed /\ runs = Run(consumed, len)
+  /\ presented' = rtot /\ consumed' = rtot
+  /\ UNCHANGED <<tcp, run, thr, sent, pend, written, pgot, pwrote, rtot, incb, pshut, eof, closeRep, wfail, peof, clean>>
+
 (* peer close reported exactly once, after all data that preceded it *)
 Delivered == rtot - consumed >= thr => presented = rtot
 CloseReport ==
